@@ -495,6 +495,17 @@ func (r *Reader) ReadMIMEHeaderAndKeys() (MIMEHeader, MIMEKeys, error) {
 
 	m := make(MIMEHeader, hint)
 	mkeys := make(MIMEKeys, 0, hint)
+
+	// The first line cannot start with a leading space (RFC 7230 3: whitespace between
+	// the start-line and the first header field must be rejected or ignored).
+	if buf, err := r.R.Peek(1); err == nil && (buf[0] == ' ' || buf[0] == '\t') {
+		line, err := r.readLineSlice()
+		if err != nil {
+			return m, mkeys, err
+		}
+		return m, mkeys, ProtocolError("malformed MIME header initial line: " + string(line))
+	}
+
 	for {
 		kv, err := r.readContinuedLineSlice()
 		if len(kv) == 0 {
